@@ -1,13 +1,20 @@
 ---- MODULE PeerGrammarClientMC ----
-(* bounded wrapper of PeerGrammarClient: sequences of <= MaxFrames frames, then the deadlines pass *)
+(* bounded wrapper of PeerGrammarClient: sequences of <= MaxFrames frames, then the deadlines pass.
+   Value-carrying HEADERS frames (ValT) are enabled among the first ValDepth frames only. *)
 EXTENDS PeerGrammarClient
-CONSTANT MaxFrames
+CONSTANTS MaxFrames, ValDepth
 VARIABLE nf
 vars == <<cvars, nf>>
 Init == CInit /\ nf = 0
 FrameT(v, r) == nf < MaxFrames /\ nf' = nf + 1 /\ Frame(v, r)
+ValT(k, val, r) == nf < MaxFrames /\ nf < ValDepth /\ nf' = nf + 1 /\ ValFrame(k, val, r)
 ExpireT == Expire /\ UNCHANGED nf
 Next == \/ \E v \in StreamV, r \in 1..2 : FrameT(v, r)
         \/ \E v \in ConnV : FrameT(v, 0)
+        \/ \E val \in MsgVals, r \in 1..2 : ValT("V_tmsg", val, r)
+        \/ \E val \in MsgVals, r \in 1..2 : ValT("V_hmsg", val, r)
+        \/ \E val \in StatusVals, r \in 1..2 : ValT("V_tstatus", val, r)
+        \/ \E val \in DetailVals, r \in 1..2 : ValT("V_tdetails", val, r)
+        \/ \E val \in CtVals, r \in 1..2 : ValT("V_tct", val, r)
         \/ ExpireT
 ====
